@@ -1432,9 +1432,6 @@ class Vector():
 			warnings.warn(f"The behavior of >> and << have been overridden for concatenation. Use .bitshift() to shift bits.")
 
 		if isinstance(other, Vector):
-			# (an untyped empty vector and a Table have no dtype: nothing to compare)
-			if self._dtype is not None and other.schema() is not None and not self._dtype.nullable and not other.schema().nullable and self._dtype.kind != other.schema().kind:
-				raise SerifTypeError("Cannot concatenate two typesafe Vectors of different types")
 			# dtype is inferred from the concatenated values (never reuse self's dtype:
 			# the appended values may be None or of another kind)
 			# (list(...): `t + ()` is t itself, and a vector built over the operand's own tuple would share its storage)
@@ -1451,14 +1448,8 @@ class Vector():
 			warnings.warn(f"The behavior of >> and << have been overridden for concatenation. Use .bitshift() to shift bits.")
 
 		if type(other).__name__ == 'Table':
-			# (an untyped empty vector and a Table have no dtype: nothing to compare)
-			if self._dtype is not None and other.schema() is not None and not self._dtype.nullable and not other.schema().nullable and self._dtype.kind != other.schema().kind:
-				raise SerifTypeError("Cannot concatenate two typesafe Vectors of different types")
 			return Vector((self,) + other.cols())
 		if isinstance(other, Vector):
-			# (an untyped empty vector and a Table have no dtype: nothing to compare)
-			if self._dtype is not None and other.schema() is not None and not self._dtype.nullable and not other.schema().nullable and self._dtype.kind != other.schema().kind:
-				raise SerifTypeError("Cannot concatenate two typesafe Vectors of different types")
 			# (no dtype: two columns of unequal length do not make a Table but a vector whose
 			# cells are the two vectors - self's dtype would not describe them)
 			return Vector((self,) + (other,))
